@@ -669,6 +669,10 @@ class BIPForeign(BIPSAP, Client, Server, OneShotTask, DebugContents):
             self.bbmdAddress = Address(addr)
         self.bbmdTimeToLive = ttl
 
+        # no longer unregistering, the result of this request counts
+        if self.registrationStatus == -2:
+            self.registrationStatus = -1
+
         # install this task to do registration renewal according to the TTL
         # and stop tracking any active registration timeouts
         self.install_task(when=0)
